@@ -11,13 +11,25 @@ def scriptHandler : Handler
     let ss ← decodeStmts stmts
     let o := fun k => (obsStr obs k).getD "<missing>"
     -- correspondence
-    let m := readScript g {} ss
+    -- a text the dialect's grammar rejects: FromString returns an error and the model stays as it was (empty here)
+    let raw := readScript g {} ss
+    let parseErr := match raw with
+      | .error e => e.startsWith "PARSE"
+      | .ok _ => false
+    -- sqlite is fed one statement per call: a rejected statement leaves what the earlier calls loaded
+    let prefixState : List Stmt → Migration → Migration := fun stmts m0 =>
+      stmts.foldl (fun (acc : Migration × Bool) s =>
+        if acc.2 then acc else match readScript g acc.1 [s] with
+          | .ok m' => (m', false)
+          | .error _ => (acc.1, true)) (m0, false) |>.1
+    let m : M Migration := if parseErr then .ok (if g.dialect == .sqlite then prefixState ss {} else {}) else raw
     let r1 := do let x ← m; x.migrationUp g
     let dump := do let (_, out) ← r1; renderMigration g out
     let r2 := do let (x1, _) ← r1; x1.migrationDown g
     let dumpDown := do let (_, out) ← r2; renderMigration g out
     let corr :=
-      (expectOutcome "load" (m.map (fun _ => "ok")) (o "err")).and <|
+      (if parseErr then (if (o "err").startsWith "error:" then okV else corrFail "load" "error:<syntax error>" (o "err"))
+       else expectOutcome "load" (m.map (fun _ => "ok")) (o "err")).and <|
       (expectOutcome "state" (m.map stateDump) (o "state")).and <|
       (expectOutcome "dump" dump (o "dump")).and <|
       (expectOutcome "dump-down" dumpDown (o "dumpDown")).and <|
